@@ -34,6 +34,12 @@
 #include "dwpp.hh"
 #include "dwit.hh"
 
+#ifdef DWGREP_VERIF
+// Defined in scon.cc. Returns non-zero if something unusual but legal should
+// happen at the given site. Here: the caches forget everything.
+extern "C" int dwgrep_verif_unusual (char const *site);
+#endif
+
 void
 parent_cache::recursively_populate_unit (unit_cache_t &uc, Dwarf_Die die,
 					 Dwarf_Off paroff)
@@ -72,6 +78,11 @@ parent_cache::populate_unit (Dwarf_Die die)
 Dwarf_Off
 parent_cache::find (Dwarf_Die die)
 {
+#ifdef DWGREP_VERIF
+  if (dwgrep_verif_unusual ("parent_cache"))
+    m_cache.clear ();
+#endif
+
   Dwarf_Die cudie;
   if (dwarf_diecu (&die, &cudie, nullptr, nullptr) == nullptr)
     throw_libdw ();
@@ -101,6 +112,11 @@ parent_cache::find (Dwarf_Die die)
 bool
 root_cache::is_root (Dwarf_Die die)
 {
+#ifdef DWGREP_VERIF
+  if (dwgrep_verif_unusual ("root_cache"))
+    m_cache.clear ();
+#endif
+
   Dwarf *dw = dwarf_cu_getdwarf (die.cu);
   auto it = m_cache.find (dw);
   if (it == m_cache.end ())
